@@ -200,6 +200,12 @@ def evaluate(cases):
                     owner.append((ci, ('sf1', li)))
                     lines.append(f"c18 kind=bs shape={L.shape[1]} data={core.fmt_floats(L[li])} order={c['order']}")
                     owner.append((ci, ('bs1', li)))
+        elif k == 'resize' and c['func'] in ('imresize', 'resize_to', 'resize_rgb_to'):
+            # the wrapper models of resize.py (Model/C18.lean: resizeTo / imresizeInt / resizeRgbTo)
+            A = _arr(c)
+            lines.append(f"c18 kind=rs name={c['func']} shape={gen.enc_shape(c['shape'])} data={core.fmt_floats(A)} "
+                         f"order={c['order']} nsize={gen.enc_shape(c['nsize'])}")
+            owner.append((ci, 'rs'))
     drvs = core.drive(lines)
     per = {}
     for (ci, what), d in zip(owner, drvs):
@@ -327,6 +333,26 @@ def evaluate(cases):
                                       detail=dict(corner=list(corner), got=np.asarray(got[corner]).tolist(),
                                                   want=np.asarray(A[src]).tolist())))
                         break
+            # the wrapper model (shape and values; theorems C18_resize_to_shape / C18_imresize_shape /
+            # C18_resize_rgb_to_shape speak about it)
+            if ci in per and not any(x['kind'] == 'property' for x in f):
+                d = per[ci][0][1]
+                if 'error' in d:
+                    raise core.Infra('driver: ' + str(d))
+                if d.get('shape') in (None, 'none'):
+                    f.append(dict(kind='model', key=f'{fn}-model:raises', detail=dict(got=list(got.shape))))
+                else:
+                    mshape = [int(t) for t in d['shape'].split(',')] if d['shape'] not in ('', '-') else []
+                    model = core.floats(d['model'])
+                    g = np.asarray(got, np.float64).ravel(order='C')
+                    if mshape != list(got.shape) or model.size != g.size:
+                        f.append(dict(kind='model', key=f'{fn}-model:shape', detail=dict(got=list(got.shape), model=mshape)))
+                    elif g.size:
+                        badm = np.nonzero(~(np.abs(g - model) <= TOL * sc * 10))[0]
+                        if len(badm):
+                            i = int(badm[0])
+                            f.append(dict(kind='model', key=f'{fn}-model:order{c["order"]}',
+                                          detail=dict(pixel=i, got=float(g[i]), model=float(model[i]), nbad=int(len(badm)))))
         elif k == 'badout':
             tags.update(bad=c['bad'])
             if not r['really_bad']:
